@@ -79,6 +79,9 @@ func genArgMax(r *gen.R, validOnly bool) (mon.OpReq, Expect, bool) {
 	}
 	if !validOnly && r.Chance(0.1) {
 		axis = r.PickInt(rank, rank+1, -rank-1, -rank-3)
+		if r.Chance(0.15) {
+			axis = int(extremeAxis(r))
+		}
 		axisGiven = true
 	}
 	if axisGiven {
@@ -137,6 +140,9 @@ func genReduce(r *gen.R, op string, validOnly bool) (mon.OpReq, Expect, bool) {
 		}
 		if !validOnly && r.Chance(0.1) {
 			axes = append(axes, int64(r.PickInt(rank, rank+1, -rank-1, -rank-2)))
+			if r.Chance(0.15) {
+				axes[len(axes)-1] = extremeAxis(r)
+			}
 		}
 		req.Attrs = append(req.Attrs, mon.AttrInts("axes", axes))
 	}
@@ -213,6 +219,9 @@ func genSoftmax(r *gen.R, op string, validOnly bool) (mon.OpReq, Expect, bool) {
 	}
 	if !validOnly && r.Chance(0.08) {
 		axis = r.PickInt(rank, rank+2, -rank-1, -rank-2)
+		if r.Chance(0.15) {
+			axis = int(extremeAxis(r))
+		}
 		given = true
 	}
 	if given {
